@@ -22,7 +22,7 @@ func scenarios(tier string) []engine.Scenario {
 	// Scenario i runs on worker i mod 16: the catalogue is emitted group by group so that scenarios of
 	// one kind (= similar cost) are spread over all workers.
 	groups := map[string][]engine.Scenario{}
-	order := []string{"gk", "rlk", "evk", "enc", "seq", "stat", "pk", "compressed", "known"}
+	order := []string{"gk", "rlk", "evk", "enc", "seq", "kgenseq", "stat", "pk", "compressed", "flags", "known"}
 	bound, nps, logNs := 2, []int{0, 1, 2}, []int{4, 5}
 	if tier == "thorough" {
 		bound, nps = 3, []int{0, 1, 2, 3}
@@ -41,6 +41,16 @@ func scenarios(tier string) []engine.Scenario {
 					}
 					groups["stat"] = append(groups["stat"], statScenario(rt, logN, ch, np))
 					groups["compressed"] = append(groups["compressed"], compressedScenario(rt, logN, ch, np))
+					if logN == 4 || tier == "thorough" {
+						groups["flags"] = append(groups["flags"], flagsScenario(rt, logN, ch, np))
+					}
+					if logN == 5 && (ci < 2 || tier == "thorough") && np < 2 {
+						sl := 2
+						if tier == "thorough" {
+							sl = 3
+						}
+						groups["kgenseq"] = append(groups["kgenseq"], kgenSeqScenario(rt, logN, ch, np, sl))
+					}
 					if logN == 4 || tier == "thorough" {
 						groups["seq"] = append(groups["seq"], seqScenario(rt, logN, ch, np, 2))
 					}
@@ -65,11 +75,24 @@ func expect(tier string) []string {
 	e := []string{"ring=Std", "ring=CI", "P=0", "P=1", "P=2", "key=sk", "key=pk", "path=sk", "path=pkNoP", "path=pkWithP",
 		"degree=0", "degree=1", "degree=2", "IsNTT=true", "IsNTT=false", "IsMontgomery=true", "IsMontgomery=false",
 		"level=max", "level=below-max", "levels=ct!=pt", "target=stale", "NTTFlag=true", "NTTFlag=false",
-		"dec=0", "dec=1", "dec=2", "stat-key=sk", "stat-key=pk", "stat-probe=zero-pk", "stat-probe=pk-QP", "stat-probe=fresh-object-first-draw", "compressed-IsNTT=true", "compressed-IsNTT=false", "compressed-NTTFlag=true", "compressed-NTTFlag=false", "compressed-level=max", "compressed-level=below-max",
+		"dec=0", "dec=1", "dec=2", "stat-key=sk", "stat-key=pk", "stat-probe=zero-pk", "stat-probe=pk-QP", "stat-probe=fresh-object-first-draw", "kgenseq-probe=pooled-pk-encryption-after-history", "compressed-IsNTT=true", "compressed-IsNTT=false", "compressed-NTTFlag=true", "compressed-NTTFlag=false", "compressed-level=max", "compressed-level=below-max",
 		"keys-kind=pk", "keys-kind=rlk", "keys-kind=gk", "keys-kind=evk", "keys-compressed=true", "keys-compressed=false",
 		"keys-LevelP=-1", "keys-LevelP=0", "keys-LevelP=1", "keys-LevelQ=below-max", "keys-LevelQ=max", "keys-tail=#P-does-not-divide-#Q"}
 	for _, k := range []string{sigMontSk, sigMontPkNoP, sigDeg2Sk, sigDeg0Pk, "none(control)"} {
 		e = append(e, "known-class="+k)
+	}
+	for _, k := range []string{"sk", "pk"} {
+		for _, a := range []bool{true, false} {
+			for _, b := range []bool{true, false} {
+				e = append(e, fmt.Sprintf("flags-cell=%s/IsNTT=%v/IsMontgomery=%v", k, a, b))
+			}
+		}
+	}
+	for _, tg := range flagTargets {
+		e = append(e, "flags-target="+tg)
+	}
+	for _, n := range kgenOps {
+		e = append(e, "kgenseq-op="+n)
 	}
 	for _, n := range provNames {
 		e = append(e, "prov="+n)
